@@ -163,6 +163,51 @@ pub fn check_matrix(m: &Small, origin: &str, acc: &mut Acc) {
     }
 }
 
+fn check_big(name: &str, h: &ldpc_toolbox::sparse::SparseMatrix, acc: &mut Acc) {
+    use crate::mats::Big;
+    acc.evals += 1;
+    let (r, n) = (h.num_rows(), h.num_cols());
+    let k = n - r;
+    let key = format!("encoder:big:{}", name);
+    let replay = json!({"kind": "big", "name": name});
+    let inv = Big::from_sparse_cols(h, k).rank() == r;
+    match guard(|| Encoder::from_h(h)) {
+        Err(e) => acc.violate(key, format!("from_h panicked: {} (tail invertible: {})", e, inv), replay),
+        Ok(Err(_)) => {
+            if inv {
+                acc.violate(key, format!("from_h rejected a {}x{} matrix whose last r columns are invertible", r, n), replay);
+            }
+        }
+        Ok(Ok(enc)) => {
+            if !inv {
+                acc.violate(key, format!("from_h accepted a {}x{} matrix whose last r columns are singular", r, n), replay);
+                return;
+            }
+            acc.nontrivial += 1;
+            let mut msgs = crate::codes::three_messages(k);
+            for u in [0, k / 2, k - 1] {
+                let mut m = vec![0u8; k];
+                m[u] = 1;
+                msgs.push(m);
+            }
+            for msg in msgs {
+                match guard(|| crate::codes::encode_bits(&enc, &msg)) {
+                    Ok(cw) => {
+                        if cw.len() != n || cw[..k] != msg[..] || !crate::codes::syndrome_ok(h, &cw) {
+                            acc.violate(key, format!("{}x{}: encoder output is not a systematic codeword", r, n), replay);
+                            return;
+                        }
+                    }
+                    Err(e) => {
+                        acc.violate(key, format!("encode panicked: {}", e), replay);
+                        return;
+                    }
+                }
+            }
+        }
+    }
+}
+
 fn staircase_matrix(r: usize, k: usize, h0: u64) -> Small {
     let n = k + r;
     let mut rows = Vec::new();
@@ -203,8 +248,8 @@ pub fn run(run: &Run) -> i32 {
         // staircase family: exact staircase tail with every H0, every single-bit flip of the tail
         let rmax = if run.thorough() { 6 } else { 5 };
         for r in 1..=rmax {
-            for k in 0..=3usize {
-                if r * k > 18 {
+            for k in 0..=4usize {
+                if r * k > 20 {
                     continue;
                 }
                 let flips = if run.thorough() || r * k <= 12 { r * r } else { 0 };
@@ -222,6 +267,12 @@ pub fn run(run: &Run) -> i32 {
             }
         }
     }
+    if run.replay.is_none() {
+        // many rows: dense invertible / singular tails (fill-in during elimination), reference by big bit-set rank
+        let fam = crate::c09::big_families_pub(run.thorough());
+        let a = par_items(&fam, |(name, h), a| check_big(name, h, a));
+        acc = acc.merge(a);
+    }
     let stair = acc.counters.get("staircase_tail").cloned().unwrap_or(0);
     let fast = acc.counters.get("staircase_fast_path_taken").cloned().unwrap_or(0);
     let mut extra = serde_json::Map::new();
@@ -231,7 +282,7 @@ pub fn run(run: &Run) -> i32 {
         run,
         acc,
         Coverage {
-            rule: "every binary matrix of every listed shape (all masks) plus, for r up to the bound and k<=3, the exact staircase tail with every information part and every single-bit flip of the r x r tail; for each accepted matrix ALL 2^(n-r) messages and all message pairs (linearity); every matrix is additionally built in three scrambled insertion orders, with the messages passed as owned arrays, reversed views (stride -1) and stride-2 views, and must give the same verdict and codewords. Non-trivial = invertible tail and n > r.".into(),
+            rule: "every binary matrix of every listed shape (all masks) plus, for r up to the bound and k<=4, the exact staircase tail with every information part and every single-bit flip of the r x r tail; for each accepted matrix ALL 2^(n-r) messages and all message pairs (linearity); every matrix is additionally built in three scrambled insertion orders, with the messages passed as owned arrays, reversed views (stride -1) and stride-2 views, and must give the same verdict and codewords. Plus deterministic families with many rows (dense invertible and singular tails up to 40 (64) rows). Non-trivial = invertible tail and n > r.".into(),
             exhaustive: true,
             extra,
             graph: None,
